@@ -359,16 +359,17 @@ def classify(p, ref, boa, probe=None):
         if consts & _assigned_ids({k: p[k] for k in ("p_funcs", "p_body")}):
             return "tdz-const-assign-typeerror"
     # TDZ not enforced / wrong binding through switch
-    if has(p, "SSwitch") and ("ReferenceError" in rt or "ReferenceError" in rc) and ("ReferenceError" not in bt and "ReferenceError" not in bc):
+    nref_r, nref_b = (rt + rc).count("ReferenceError"), (bt + bc).count("ReferenceError")
+    if has(p, "SSwitch") and nref_r > nref_b:
         return "switch-tdz-missing"
-    if ("ReferenceError" in bt + bc) and ("ReferenceError" not in rt + rc):
+    if nref_b > nref_r:
         for f in p["p_funcs"]:
             if any(d is not None for _, d in f["f_params"]) and f["f_body"]:
                 pn = _pat_names([q for q, _ in f["f_params"]])
                 if pn & _var_names(f["f_body"]):
                     return "param-expressions-body-var-same-name"
         return "reference-error-spurious"
-    if ("ReferenceError" in rt + rc) and ("ReferenceError" not in bt + bc):
+    if nref_r > nref_b:
         # a store to a lexical binding that is declared later in the same statement list
         lex = set()
         for d in nodes(p, "SDecl"):
@@ -381,12 +382,35 @@ def classify(p, ref, boa, probe=None):
     for po in nodes(p, "PObj"):
         if po[2] is not None and any(q[1][0] in ("PObj", "PArr") for q in po[1]):
             return "object-rest-nested-pattern"
-    for u in nodes(p, "EUpdate"):
-        if not u[1]:
-            return "postfix-update-value-not-numeric"
+    if any(not u[1] for u in nodes(p, "EUpdate")):
+        # the value of a postfix update is the unconverted operand: the differing tokens are number-ish in the oracle's line and
+        # a non-number (or its type name) in boa's
+        d = first_diff(ref, boa)
+        if d and d[0] == "t" and d[2] is not None and d[3] is not None:
+            a, b = d[2].split(" "), d[3].split(" ")
+
+            def numberish(x):
+                return x in ("number", "NaN", "Infinity", "-Infinity") or re.fullmatch(r"-?[0-9.]+(e[+-]?[0-9]+)?", x) is not None
+            pairs = [(x, y) for x, y in zip(a, b) if x != y]
+            if len(a) == len(b) and pairs and all(numberish(x) for x, _ in pairs) and any(y in ("string", "undefined", "object", "boolean", "null", "true", "false", "bigint") or not numberish(y) for _, y in pairs):
+                return "postfix-update-value-not-numeric"
+    if any(b[1] == "BExp" for b in nodes(p, "EBinary") + nodes(p, "EOpAssign")) and (rt + rc).count("NaN") > (bt + bc).count("NaN"):
+        return "exponent-nan"
     if has(p, "ELogAssign"):
         return "logical-assign-operand"
     if bt == rt and bc != rc:
+        if rc.startswith("V:") and bc == 'V:undefined:"undefined"':
+            # the completion value of an earlier expression statement is lost: which statement kinds follow it?
+            body = p["p_body"]
+            for ev in nodes(p, "SDirectEval"):
+                body = ev[2]
+            tail = []
+            for st_ in reversed(body):
+                if st_[0] == "SExpr":
+                    break
+                tail.append(st_[0])
+            if tail and all(t in ("SDecl", "SFunDecl", "SClassDecl", "SEmpty") for t in tail):
+                return "completion-value-lost-after-declaration"
         if has(p, "SDirectEval") or p.get("meta", {}).get("form") == "script":
             return "completion-value"
         return "completion"
@@ -652,14 +676,15 @@ def process_chunk(run, eng, progs, deadline, tag, shrink_limit):
             check_time()
             p = live[k]
             q, shrunk = p, False
-            try:
-                q = shrink.shrink(p, make_pred(eng, d0, deadline), max_rounds=30 if run.quick else 60,
-                                  time_limit=min(shrink_limit, max(1.0, deadline - time.time())))
-                shrunk = True
-            except Abandoned:
-                raise
-            except Exception as ex:
-                log("shrink failed: %r" % ex)
+            if shrink_limit > 0:        # corpus programs are minimized already
+                try:
+                    q = shrink.shrink(p, make_pred(eng, d0, deadline), max_rounds=30 if run.quick else 60,
+                                      time_limit=min(shrink_limit, max(1.0, deadline - time.time())))
+                    shrunk = True
+                except Abandoned:
+                    raise
+                except Exception as ex:
+                    log("shrink failed: %r" % ex)
             check_time()
             r2 = run_jsref({"x": q})["x"]
             b2 = eng.boa_primary({"x": q}).get("x")
@@ -705,7 +730,7 @@ def main():
         vlib.infra_error(PROP, "harness build failed: " + hlog[-400:])
     eng = Engine(paths["js"])
     run.cov["v8_filter_available"] = node_available()
-    budget = (150 if run.quick else 1000)
+    budget = (90 if run.quick else 900)
     if os.environ.get("C01_BUDGET"):
         budget = int(os.environ["C01_BUDGET"])
     target = int(os.environ.get("C01_PROGRAMS", 3000 if run.quick else 60000))
@@ -729,7 +754,7 @@ def main():
     for p in cprogs.values():
         p.setdefault("meta", {"form": "script", "features": [], "hermetic": False, "main_call": None})
     if cprogs:
-        merge(process_chunk(run, eng, cprogs, time.time() + 3000, "corpus", 60))
+        merge(process_chunk(run, eng, cprogs, time.time() + 3000, "corpus", 0))
         st.add("corpus_programs", len(cprogs))
     t_start = time.time()
     deadline = t_start + budget
@@ -753,7 +778,7 @@ def main():
             return None
         progs = gen_chunk(ci)
         try:
-            return len(progs), process_chunk(run, eng, progs, deadline, "g%d" % ci, 40 if run.quick else 150)
+            return len(progs), process_chunk(run, eng, progs, deadline, "g%d" % ci, 30 if run.quick else 150)
         except Abandoned:
             abandoned[0] += 1
             return None
@@ -772,12 +797,20 @@ def main():
     run.cov["differential_wall_s"] = round(time.time() - t_start, 1)
     run.cov["distribution"] = {k: v for k, v in sorted(st.c.items())}
     run.cov["programs"] = st.c.get("compared", 0)
+    run.cov["disagreements_checked"] = st.c.get("escalated", 0) + st.c.get("model_defect", 0) + st.c.get("entry_mismatch", 0)
+    run.cov["explanation"] = ("programs = programs decided by the oracle and compared under eval/bytes; each is additionally run under 3-5 further boa "
+                              "configurations (entry_runs); disagreements_checked = boa/JSRef mismatches put through the V8 filter (escalated + model_defect) "
+                              "plus entry-independence mismatches; every escalated one was shrunk and classified (classes)")
     if findings and len(run.cov["samples"]) < 2:
         pass
     # samples of actual cases
     rng = random.Random(run.seed)
     sp = progen.gen_program(random.Random((run.seed << 20) ^ 13), "C01", 12)
     run.sample({"program": jsast.to_js(sp)[:1500], "jsref": run_jsref({"s": sp})["s"][1:], "boa": eng.boa_primary({"s": sp}).get("s", ("", "", ""))[1:]})
+    for f in findings[:2]:
+        if not f.get("infra"):
+            run.sample({"disagreement_class": f["class"], "program": f["replay"].get("input", "")[:800],
+                        "jsref": f["replay"].get("model_output"), "boa": f["replay"].get("impl_output")})
     close_servers()
     # dry run of the proposed known findings (development aid, off by default): C01_ASSUME_KNOWN=1
     if os.environ.get("C01_ASSUME_KNOWN"):
@@ -793,6 +826,8 @@ def main():
     for f in sorted(findings, key=lambda f: f.get("size", 0)):
         per_class.setdefault(f["class"], []).append(f)
     run.cov["classes"] = {c: len(l) for c, l in per_class.items()}
+    run.cov["class_examples"] = {c: {"input": l[0]["replay"].get("input", "")[:1200], "jsref": l[0]["replay"].get("model_output"),
+                                     "boa": l[0]["replay"].get("impl_output")} for c, l in per_class.items()}
     for c, l in sorted(per_class.items()):
         for f in l[:2]:
             o = dict(f["replay"])
